@@ -1,61 +1,19 @@
 (* Recorded findings for C04 (findings_proposed/C04.txt).  If this file stops compiling a finding is stale, which the
-   check reports as such (it is not a violation). *)
-From TT Require Import Base.Prelude Base.ImscXml Model.ImscTime Model.ImscStyles Model.ImscTiming Model.ImscTriggers Spec.TtmlTimingSpec.
-From TT Require Import Proofs.C04.TimeSyntax Proofs.C04.Interval Proofs.C04.Total.
+   check reports as such (it is not a violation).
+   The findings that had a statement about the model here (seq-indefinite-sibling, zero-rate-division, tickrate-default,
+   lax-value-syntax, style-invalid-value-abort) are repaired in the code: their refuted statements are gone and the unconditional
+   theorems are in Properties/C04.v (C04_read_total, C04_rates_positive, C04_tick_rate, C04_time_reject, C04_bad_value_in_style_ignored).
+   The one finding that remains, unknown-attribute-not-logged, is about log records, which are not modelled: the model reads an element
+   with an attribute it does not know exactly as without it (below), the missing log record is observed by the check on the code. *)
+From TT Require Import Base.Prelude Base.ImscXml Model.ImscTime Model.ImscStyles Model.ImscTiming.
 From Coq Require Import QArith.
 Local Open Scope Z_scope.
 
 Definition ev0 : env := mkEnv 1 (30 # 1) [] (fun _ _ => None) (fun _ _ => true) [].
-Definition pc0 : pctx := mkPctx true None 0 false [] true.
+Definition pc0 : pctx := mkPctx true (Some 0%Q) false [] true.
 
-(* seq-indefinite-sibling: <div timeContainer="seq"><p>a</p><p>b</p></div> aborts the read (TypeError), although the
-   TTML2 semantics give the div a (indefinite) interval; the trigger fires on it *)
-Definition seq_witness : xml :=
-  X T_div [(A_timeContainer, V_seq)] None None [X T_p [] (Some [97]) None []; X T_p [] (Some [98]) None []].
-Theorem C04_read_total_refuted : exists ev x pc, rates_ok ev /\ pc_par pc = true /\ process ev pc x = PErr 1 /\
-  trigger_seq (tv_of ev) false x = true.
-Proof.
-  exists ev0, seq_witness, pc0. split; [|split; [|split]].
-  - split; [reflexivity|]. reflexivity.
-  - reflexivity.
-  - vm_compute. reflexivity.
-  - vm_compute. reflexivity.
-Qed.
-
-(* zero-rate-division: ttp:frameRate="0" makes begin="10f" raise ZeroDivisionError *)
-Theorem C04_zero_rate_refuted : exists x, process (mkEnv 1 0 [] (fun _ _ => None) (fun _ _ => true) []) pc0 x = PErr 2.
-Proof. exists (X T_p [(A_begin, [49; 48; 102])] None None []). reflexivity. Qed.
-
-(* tickrate-default: under ttp:frameRate="25" and no ttp:tickRate the reader uses 1 tick per second, TTML2 gives 25 *)
-Theorem C04_tick_default_refuted : exists attrs, ~ (inject_Z (extract_tick_rate attrs) == spec_tick_rate attrs)%Q.
-Proof. exists [(A_frameRate, [50; 53])]. intro H. vm_compute in H. discriminate. Qed.
-
-(* lax-value-syntax: "10fx" is not a time expression and is read as 10 frames; "1s\n" likewise *)
-Theorem C04_time_reject_refuted : exists s, ~ in_grammar s /\ parse_time (Some 1) (Some (25 # 1)) s <> None.
-Proof.
-  exists [49; 48; 102; 120]. split.
-  - change [49; 48; 102; 120] with ([49; 48; 102] ++ [120]). apply not_in_grammar_last; [reflexivity|]. simpl. intuition discriminate.
-  - vm_compute. discriminate.
-Qed.
-Theorem C04_time_reject_newline_refuted : exists s, ~ in_grammar s /\ parse_time (Some 1) (Some (25 # 1)) s <> None.
-Proof.
-  exists ([49; 115] ++ [10]). split.
-  - apply not_in_grammar_last; [reflexivity|]. simpl. intuition discriminate.
-  - vm_compute. discriminate.
-Qed.
-
-Print Assumptions C04_read_total_refuted.  Print Assumptions C04_zero_rate_refuted.  Print Assumptions C04_tick_default_refuted.
-Print Assumptions C04_time_reject_refuted.  Print Assumptions C04_time_reject_newline_refuted.
-
-(* style-invalid-value-abort: <style xml:id="s1" tts:extent="1em 1em"/> parses but is not a valid model value; referenced from a p
-   it makes set_style raise ValueError outside any handler (outcome 5), while the same attribute inline is ignored *)
-From TT Require Import Model.ImscWrite Model.ImscWriteCases Model.ImscCases Gen.ImscTables.
-Definition extent_attr : qname * text := ((NS_TTS, [101; 120; 116; 101; 110; 116]), [49; 101; 109; 32; 49; 101; 109]).
-Definition ev_style : env :=
-  mkEnv 1 (30 # 1) [] (to_model_inst []) valid_inst
-        [mkSty [115; 49] (collect (to_model_inst []) [extent_attr] []) []].
-Theorem C04_style_abort_refuted :
-  process ev_style pc0 (X T_p [(A_style, [115; 49])] (Some [97]) None []) = PErr 5 /\
-  match process ev_style pc0 (X T_p [extent_attr] (Some [97]) None []) with POk _ => True | _ => False end.
-Proof. split; vm_compute; [reflexivity|exact I]. Qed.
-Print Assumptions C04_style_abort_refuted.
+(* <p xml:base="x">a</p> is read as <p>a</p> (no outcome of the model tells that nothing was reported) *)
+Theorem C04_unknown_attribute_same_result :
+  process ev0 pc0 (X T_p [((NS_XML, [98; 97; 115; 101]), [120])] (Some [97]) None []) = process ev0 pc0 (X T_p [] (Some [97]) None []).
+Proof. reflexivity. Qed.
+Print Assumptions C04_unknown_attribute_same_result.
